@@ -83,7 +83,7 @@ impl Scenario {
 }
 
 /// An external one-shot event
-struct Gate { fired: bool, waker: Option<task::Waker>, thread_waiters: Vec<usize> }
+struct Gate { fired: bool, waker: Option<task::Waker>, thread_waiters: Vec<usize>, history: Vec<task::Waker> }
 
 pub struct Ctx {
     pub sched:   &'static Sched,
@@ -133,7 +133,7 @@ impl Future for GateFuture {
     type Output = ();
     fn poll(self: Pin<&mut Self>, context: &mut Context) -> Poll<()> {
         let mut gate = self.ctx.gates[self.gate - 1].lock().unwrap();
-        if gate.fired { Poll::Ready(()) } else { gate.waker = Some(context.waker().clone()); Poll::Pending }
+        if gate.fired { Poll::Ready(()) } else { gate.waker = Some(context.waker().clone()); gate.history.push(context.waker().clone()); Poll::Pending }
     }
 }
 
@@ -385,6 +385,13 @@ fn exec_inner(ctx: &Arc<Ctx>, op: &OpSpec, slots: &mut Slots) -> i64 {
 
         "fire" => { ctx.sched.obs("fire", op.g as i64, 0); ctx.fire(op.g); 0 }
 
+        // the adversary allowed by the Future contract: every waker ever handed to this event source is invoked (the event does not fire)
+        "spur" => {
+            let wakers: Vec<task::Waker> = ctx.gates[op.g - 1].lock().unwrap().history.clone();
+            for waker in wakers { waker.wake(); }
+            0
+        }
+
         "drop_obj" => {
             let object = ctx.objects[op.o - 1].lock().unwrap().take();
             std::mem::drop(object);
@@ -492,7 +499,7 @@ pub fn setup(sched: &'static Sched, scenario: &Scenario) -> Arc<Ctx> {
 
     let objects: Vec<Arc<Desync<Payload>>> = (1..=scenario.objects).map(|obj| Arc::new(Desync::new(Payload { obj, sched }))).collect();
     let queues: Vec<Arc<JobQueue>> = objects.iter().map(|d| Arc::clone(d.verif_queue())).collect();
-    let gates = (0..scenario.gates).map(|_| Mutex::new(Gate { fired: false, waker: None, thread_waiters: vec![] })).collect();
+    let gates = (0..scenario.gates).map(|_| Mutex::new(Gate { fired: false, waker: None, thread_waiters: vec![], history: vec![] })).collect();
 
     let pipes = (0..scenario.pipes).map(|_| PipeSlot { input: Arc::new(Mutex::new(InputShared { items: Default::default(), closed: false, waker: None })), stream: Mutex::new(None) }).collect();
     let ctx = Arc::new(Ctx { sched, objects: objects.into_iter().map(|d| Mutex::new(Some(d))).collect(), queues, gates, pipes });
